@@ -177,7 +177,7 @@ theorem allBits_eq (q : Qr) (hwf : WF q) :
   unfold allBits
   simp only [emit_fold q.tlv h8]
   simp only [emit, VERSION_BITS, VID_BITS, PID_BITS, FLOW_BITS, RENDEZVOUS_BITS,
-    DISC_BITS, PASS_BITS, PADDING_BITS, e1, e2, e3, e4, e5, e6, e7, fixedNum]
+    DISC_BITS, PASS_BITS, PADDING_BITS, Consts.c17QrVersionBits, Consts.c17QrVidBits, Consts.c17QrPidBits, Consts.c17QrFlowBits, Consts.c17QrRendezvousBits, Consts.c17QrDiscBits, Consts.c17QrPassBits, Consts.c17QrPaddingBits, e1, e2, e3, e4, e5, e6, e7, fixedNum]
   refine Prod.ext ?_ ?_ <;> simp <;> omega
 
 end Codec.QrPayload
@@ -284,7 +284,7 @@ theorem parse_encode (q : Qr) (hwf : WF q) (cap : Nat) (hcap : 11 + q.tlv.length
     simp only [parse, hsp, hdec, bind, Except.bind, pure, Except.pure, hl1, hl2, if_false,
       rd 0 3 (by decide), rd 3 16 (by decide), rd 19 16 (by decide), rd 35 2 (by decide), rd 37 8 (by decide),
       rd 45 12 (by decide), rd 57 27 (by decide), rd 84 4 (by decide),
-      VERSION_BITS, VID_BITS, PID_BITS, FLOW_BITS, RENDEZVOUS_BITS, DISC_BITS, PASS_BITS, PADDING_BITS, hdrop,
+      VERSION_BITS, VID_BITS, PID_BITS, FLOW_BITS, RENDEZVOUS_BITS, DISC_BITS, PASS_BITS, PADDING_BITS, Consts.c17QrVersionBits, Consts.c17QrVidBits, Consts.c17QrPidBits, Consts.c17QrFlowBits, Consts.c17QrRendezvousBits, Consts.c17QrDiscBits, Consts.c17QrPassBits, Consts.c17QrPaddingBits, hdrop,
       g1, g2, g3, g4, g5, g6, g7, hfl, hr]
 
 end Codec.QrPayload
@@ -372,6 +372,6 @@ theorem parse_rejects_flow (body bytes : List Nat) (cap : Nat) (hd : Base38.deco
   have hl2 : ¬ (bytes.length < TOTAL_BYTES) := by rw [htb]; omega
   simp [parse, hsp, hd, bind, Except.bind, pure, Except.pure, hl1, hl2,
     rd 0 3 (by decide), rd 3 16 (by decide), rd 19 16 (by decide), rd 35 2 (by decide),
-    VERSION_BITS, VID_BITS, PID_BITS, FLOW_BITS, hflow]
+    VERSION_BITS, VID_BITS, PID_BITS, FLOW_BITS, hflow, Consts.c17QrVersionBits, Consts.c17QrVidBits, Consts.c17QrPidBits, Consts.c17QrFlowBits, Consts.c17QrRendezvousBits, Consts.c17QrDiscBits, Consts.c17QrPassBits, Consts.c17QrPaddingBits]
 
 end Codec.QrPayload
